@@ -2,6 +2,7 @@ package main
 
 import (
 	"crypto/sha256"
+	"math/rand"
 	"encoding/json"
 	"fmt"
 	"go/types"
@@ -71,6 +72,7 @@ type JobResult struct {
 	Wall         time.Duration
 	Steps        int
 	QueryPos     map[string]int
+	CrossChecked, CrossDisagree, CrossUnknown int
 }
 
 func newJobResult(j *Job) *JobResult {
@@ -138,6 +140,12 @@ func runJob(w *World, j *Job, solverKind string) (res *JobResult) {
 	defer sv.Close()
 	e := &Engine{w: w, ts: ts, solver: sv, cellCache: map[types.Type]int{}, fnInfos: map[*ssa.Function]*FnInfo{}, res: res, job: j,
 		deadline: start.Add(j.Timeout), trace: os.Getenv("GOSYM_TRACE") != ""}
+	if crossSolver != "" {
+		if cs, err := NewSolver(ts, crossSolver, 30*time.Second); err == nil {
+			e.cross = cs
+			defer cs.Close()
+		}
+	}
 	e.errType = types.NewPointer(w.lookupType("errors", "errorString"))
 	e.wrapType = types.NewPointer(w.lookupType("fmt", "wrapError"))
 	e.ctxType = types.NewPointer(w.lookupType("context", "cancelCtx"))
@@ -169,6 +177,8 @@ func runJob(w *World, j *Job, solverKind string) (res *JobResult) {
 		nf.IsDefer = true // return without touching the caller's registers
 	}
 	e.work = []*State{st}
+	nDone := 0
+	sampleRng := rand.New(rand.NewSource(jobSeed + int64(len(j.Args))*7919 + sumArgs(j.Args)))
 	for len(e.work) > 0 {
 		s := e.work[len(e.work)-1]
 		e.work = e.work[:len(e.work)-1]
@@ -188,8 +198,12 @@ func runJob(w *World, j *Job, solverKind string) (res *JobResult) {
 			}
 			res.Paths++
 			res.Branches += s.branches
-			if len(res.Samples) < 3 {
+			// reservoir of 4 completed paths per job (seeded), so witnesses are not just the first paths
+			nDone++
+			if len(res.Samples) < 4 {
 				res.Samples = append(res.Samples, e.sample(s))
+			} else if k := sampleRng.Intn(nDone); k < 4 && nDone < 200000 {
+				res.Samples[k] = e.sample(s)
 			}
 		case "infeasible":
 		case "panic", "abort", "deadlock":
@@ -283,6 +297,7 @@ func (e *Engine) sample(st *State) map[string]interface{} {
 	out["harness"] = e.job.Func
 	out["args"] = e.job.Args
 	out["witness_inputs"] = in
+	out["tags"] = append([]string(nil), st.tags...)
 	out["path_condition_conjuncts"] = len(st.pc)
 	out["branch_decisions"] = st.branches
 	var evs []string
@@ -440,6 +455,9 @@ func finish(w *World, verifDir string, spec *PropSpec, cr *CheckResult, seed int
 		agg.Unknown += jr.Unknown
 		agg.AssumePruned += jr.AssumePruned
 		agg.Steps += jr.Steps
+		agg.CrossChecked += jr.CrossChecked
+		agg.CrossDisagree += jr.CrossDisagree
+		agg.CrossUnknown += jr.CrossUnknown
 		for k, v := range jr.Ends {
 			agg.Ends[k] += v
 		}
@@ -578,6 +596,64 @@ func finish(w *World, verifDir string, spec *PropSpec, cr *CheckResult, seed int
 			inconclusive = append(inconclusive, fmt.Sprintf("counterexample for %s did not reproduce against the real code (encoding/stub/oracle problem, not a finding): %s\n%s", sig, path, tail))
 		}
 	}
+	// witness replay: a sample of PASSING paths is concretised (the solver's model of the path
+	// condition) and run natively through the same replay test; the real code must satisfy the
+	// native oracle on it. This validates the translator and the stubs against the implementation.
+	validated, witnessTried := 0, 0
+	var witnessNotes []string
+	if spec.WitnessReplay > 0 && exit == 0 {
+		var pool []map[string]interface{}
+		for _, jr := range cr.Jobs {
+			for _, sm := range jr.Samples {
+				if _, ok := sm["witness_inputs"]; ok {
+					pool = append(pool, sm)
+				}
+			}
+		}
+		rng := rand.New(rand.NewSource(seed + 1))
+		rng.Shuffle(len(pool), func(i, j int) { pool[i], pool[j] = pool[j], pool[i] })
+		byHarness := map[string]int{}
+		harnesses := map[string]bool{}
+		for _, sm := range pool {
+			h, _ := sm["harness"].(string)
+			harnesses[h] = true
+		}
+		want := spec.WitnessReplay
+		if cr.Tier == "thorough" {
+			want *= 3
+		}
+		perHarness := (want + len(harnesses) - 1) / max(len(harnesses), 1)
+		for _, sm := range pool {
+			if witnessTried >= want {
+				break
+			}
+			h, _ := sm["harness"].(string)
+			if byHarness[h] >= perHarness {
+				continue
+			}
+			byHarness[h]++
+			v := &Violation{Kind: "witness", Label: "witness-of-a-passing-path", Func: h, Inputs: sm["witness_inputs"].(map[string]interface{})}
+			if a, ok := sm["args"].([]int64); ok {
+				v.Args = a
+			}
+			os.Setenv("VERIF_WITNESS", "1")
+			ok, p, out := replayViolation(w, verifDir, spec, v)
+			os.Unsetenv("VERIF_WITNESS")
+			witnessTried++
+			replayed++
+			switch {
+			case ok:
+				witnessNotes = append(witnessNotes, "DISAGREEMENT: the witness of a path on which every obligation was discharged fails the native oracle: "+p)
+				inconclusive = append(inconclusive, "witness replay disagreement (translator / stub / oracle mismatch, not a finding): "+p)
+			case strings.Contains(out, "not-replayable") || strings.Contains(out, "no replay test"):
+				witnessNotes = append(witnessNotes, "not replayable natively: "+p)
+			case strings.Contains(out, "REPLAY: not-reproduced"):
+				validated++
+			default:
+				witnessNotes = append(witnessNotes, "replay did not report a verdict: "+p)
+			}
+		}
+	}
 	if exit == 0 && len(inconclusive) > 0 {
 		exit = 2
 	}
@@ -620,7 +696,9 @@ func finish(w *World, verifDir string, spec *PropSpec, cr *CheckResult, seed int
 		"coverage": map[string]interface{}{
 			"states":                        max(agg.Paths, 1),
 			"transitions":                   max(agg.Branches+agg.Forks, 1),
-			"traces_validated_against_impl": replayed,
+			"traces_validated_against_impl": validated,
+			"witness_replays":               map[string]interface{}{"tried": witnessTried, "validated": validated, "notes": witnessNotes, "explanation": "models of passing symbolic paths run natively through the property's replay test (real executor, shell, loader, scheduler); counterexample replays are counted separately"},
+			"counterexample_replays":        replayed - witnessTried,
 			"samples":                       samples,
 			"exhaustive":                    len(inconclusive) == 0,
 			"explanation":                   "bounded symbolic execution of the real SSA of /repo; states = completed symbolic paths, transitions = branch/scheduling decisions; every assertion on every path is an SMT query (unsat = holds for all inputs within the bounds)",
@@ -638,6 +716,7 @@ func finish(w *World, verifDir string, spec *PropSpec, cr *CheckResult, seed int
 			"outside_claim":                 spec.Outside,
 			"queries":                       map[string]int{"sat": solver.Sat, "unsat": solver.Unsat, "unknown": solver.Unknown, "error": solver.Errors, "cache_hits": solver.CacheHits, "witness_model_reuse": solver.ModelReuse},
 			"solver_time_s":                 solver.Time.Seconds(),
+			"cross_solver":                  map[string]interface{}{"solver": crossSolver, "verdict_queries_rechecked": agg.CrossChecked, "disagreements": agg.CrossDisagree, "unknown_in_cross_solver": agg.CrossUnknown},
 			"solver_max_query_s":            solver.MaxQuery.Seconds(),
 			"solver":                        spec.solverDesc,
 			"interpreter_steps":             agg.Steps,
@@ -664,3 +743,15 @@ func finish(w *World, verifDir string, spec *PropSpec, cr *CheckResult, seed int
 		spec.ID, cr.Tier, agg.Paths, agg.Obligations, agg.Discharged, nViol, len(lines)-2*nViol, solver.Sat, solver.Unsat, solver.Unknown, solver.Time.Seconds(), cr.Wall.Seconds()+cr.LoadTime.Seconds(), exit)
 	return exit
 }
+
+var jobSeed int64
+
+func sumArgs(a []int64) int64 {
+	var s int64
+	for i, x := range a {
+		s += x * int64(i+3)
+	}
+	return s
+}
+
+var crossSolver string
